@@ -40,6 +40,11 @@ def seq_len(t):
     return ufun('v_len', Val, z3.IntSort())(t)
 
 
+def seq_str_at(t, j):
+    """the j-th element of a list of strings, as a PyStr term"""
+    return ufun('v_str_at', Val, z3.IntSort(), PyStr)(t, zint(j))
+
+
 def list_term(items):
     """Val term denoting the Python list `items` (elements may be Chunk)"""
     t = v_nil()
@@ -95,6 +100,11 @@ def val_term(v):
         return ufun('v_cbytes', PyStr, Val)(lit(bytes(v).hex()))
     if isinstance(v, OpaqueVal):
         return ufun('v_opaque_' + v.tag, v.term.sort(), Val)(v.term)
+    if isinstance(v, Obj):
+        from .values import obj_fields
+        f = obj_fields(v)
+        if '_term' in f:
+            return f['_term']
     raise Unsupported("no term encoding for %s" % type(v).__name__)
 
 
